@@ -28,7 +28,7 @@ class C10(CheckBase):
     stubbed_components = ['results of faulted open/read/write calls on the .gz file and on the O_TMPFILE spool (decided by simkernel)']
 
     def budget(self, tier):
-        return 500 if tier == 'quick' else 4000
+        return 400 if tier == 'quick' else 4000
 
     def time_cap(self, tier):
         return 600 if tier == 'quick' else 5400
